@@ -15,6 +15,7 @@
 package ggql
 
 import (
+	"math"
 	"strconv"
 )
 
@@ -41,6 +42,10 @@ func (*floatScalar) CoerceIn(v interface{}) (interface{}, error) {
 	case nil:
 		// remains nil
 	case float64:
+		if math.MaxFloat32 < tv || tv < -math.MaxFloat32 {
+			// Does not fit in a float32, it would become +Inf or -Inf.
+			return nil, newCoerceErr(tv, "Float")
+		}
 		v = float32(tv)
 	case float32:
 		// ok as is
